@@ -673,6 +673,11 @@ O(id='codec_ctx_scan', props=['C15'], kind='static', harness='tools/ctx_scan.py'
   script_args=['c15_ctx_allow.json'], functions=[], no_canary=True,
   bound='whole skeleton library: every call from a function that has a codec-context parameter to a context-taking callee (by name or through a decoder slot) passes that parameter itself, by goto-program text; what the callee does with it is not tracked')
 
+O(id='time_helpers.grid', props=['C17'], kind='native', harness='harness/time_grid.c', entry='main',
+  functions=['asn_time2GT', 'asn_time2GT_frac', 'asn_GT2time', 'asn_GT2time_frac', 'asn_time2UT', 'asn_UT2time'], no_canary=True,
+  bound='native grid with the C library calendar: 10 POSIX time zones (offsets -12:00 .. +14:00 incl. -9:30, -3:30, +5:30, +5:45, +9:30, with and without DST) x every day 1902..2106 x 8 second offsets + 20000 VERIF_SEED-driven random time_t per zone; canonical text and round trip, UTCTime within 1960..2059',
+  timeout=900)
+
 for _o in OBLIGATIONS:
     if _o.get('enforce') and _o.get('kind') in ('enforce', 'width') and _o.get('tier') == 'quick' and 'C19' not in _o['props']:
         _o['props'] = _o['props'] + ['C19']
@@ -696,7 +701,7 @@ UNVERIFIED = {
  'C14': [CONSTR, XERU, 'asn_set_add/del/empty obligation is experimental (realloc model runs out of memory)', 'uper_open_type_put leak obligation experimental'],
  'C15': ['machine stack depth: not expressible (CBMC has no stack-size notion; ASN__STACK_OVERFLOW_CHECK compares addresses of different objects); only the propagation of the codec context to every context-taking callee is checked (static fact codec_ctx_scan)', CONSTR, 'OCTET_STRING_decode_ber expectation stack'],
  'C16': ['asn_REAL2double on arbitrary REAL encodings (only encodings produced by asn_double2REAL are covered, in the thorough tier); decimal NR1-3 forms (strtod)', 'decimal parsers beyond 7 characters except the overflow-boundary neighbourhood', 'asn_INTEGER2imax/umax beyond 24 octets'],
- 'C17': ['asn_GT2time*, asn_time2GT*, asn_UT2time, asn_time2UT: not applicable (libc calendar, TZ)', 'OBJECT_IDENTIFIER_parse_arcs, OBJECT_IDENTIFIER_get_arcs beyond 4 arcs, RELATIVE-OID'],
+ 'C17': ['asn_GT2time*, asn_time2GT*, asn_UT2time, asn_time2UT: no contract within reach (libc calendar, TZ); covered only by the native grid time_helpers.grid (10 zones, day steps 1902..2106), fractions and non-GMT forms not at all', 'OBJECT_IDENTIFIER_parse_arcs, OBJECT_IDENTIFIER_get_arcs beyond 4 arcs, RELATIVE-OID'],
  'C18': [GEN + ' (emit_member_type_selector, asn1c_ioc.c object-set matrix, WITH SYNTAX parsing)', 'OPEN_TYPE_xer_get, OPEN_TYPE_uper_get', 'the SEQUENCE decoders that call the getters'],
  'C19': ['actual interleavings, libc reentrancy (strtod, snprintf; errno is thread-local by assumption)', 'writes through pointers into static objects are not tracked by the scan', 'frames are machine-checked only for the functions listed under proof_obligations with kind enforce / width+enforce'],
  'C20': ['enber, and the enber(unber -p x) == x inverse: not applicable', 'unber obligations are experimental (do not discharge within 40 minutes for 5-octet inputs)'],
